@@ -4,6 +4,7 @@ set -e
 here="$(cd "$(dirname "$0")" && pwd)"
 cd "$here"
 PYTHONPATH="${PCBV_REPO:-/repo}:$here" /venv/bin/python gen/gen_tables.py
+python3 tools/mkdrv.py
 cd lean
 lake build 2>&1 | grep -v '^✔\|^⚠\|^ℹ\|Replayed\|^warning\|^$\|^Note:\|^Hint:\|^  \[apply\]\|linter' | tail -40 || true
 lake build pcbvdriver PcbV >/dev/null
